@@ -51,8 +51,8 @@ def replay_file(path):
     vs1 = core.replay_case(mod, body["case"])
     core.fresh_modules()
     vs2 = core.replay_case(mod, body["case"])
-    s1 = sorted((v["signature"], json.dumps(v.get("observed"), sort_keys=True)) for v in vs1)
-    s2 = sorted((v["signature"], json.dumps(v.get("observed"), sort_keys=True)) for v in vs2)
+    s1 = sorted(v["signature"] for v in vs1)
+    s2 = sorted(v["signature"] for v in vs2)
     if s1 != s2:
         print(f"HARNESS ERROR: replay of {path} is not deterministic")
         return 2
@@ -91,9 +91,11 @@ def finish(mod, prop, tier, seed, acc, info, wall, write_evidence=True):
         except Exception as e:  # noqa: BLE001
             unstable.append((sig, f"replay raised {e!r}"))
             continue
-        k1 = sorted((x["signature"], json.dumps(x.get("observed"), sort_keys=True)) for x in r1)
-        k2 = sorted((x["signature"], json.dumps(x.get("observed"), sort_keys=True)) for x in r2)
-        if k1 != k2 or sig not in [x["signature"] for x in r1]:
+        # (the same violations must come back on both replays; the observed VALUES may differ between two executions
+        #  when the code under test exposes indeterminate data, e.g. what lies under a dropped mask)
+        k1 = sorted(x["signature"] for x in r1)
+        k2 = sorted(x["signature"] for x in r2)
+        if k1 != k2 or sig not in k1:
             unstable.append((sig, "violation did not reproduce identically on replay"))
             continue
         confirmed.append(v)
